@@ -266,8 +266,12 @@ def run_case(case, ctx):
                     tcopy_g, tcopy_b = target.graph.copy(), dict(target.blackboxes)
                     try:
                         do_edit(cg, target, ed, r)
-                    except Exception:
-                        pass
+                    except Exception as ex:
+                        if side == "arg" and type(ex).__name__ == "NetworkXError":
+                            # the call left the argument's graph in a state that refuses edits (frozen): that is a modification
+                            evs.append({"kind": "frame", "fn": fn, "raised": "", "before": before,
+                                        "after": dict(before, name=before["name"] + "<argument can no longer be edited: %s>" % ex),
+                                        "xb": xb, "xa": xa, "nontrivial": True})
                     oa, oxa = snap(other)
                     if (ob, oxb) != (oa, oxa) or r.random() < 0.15:
                         evs.append({"kind": "alias", "fn": fn, "side": side, "edit": ed, "before": ob, "after": oa,
